@@ -3,6 +3,7 @@
 package signaling
 
 import (
+	"sort"
 	"fmt"
 	"io"
 	"log"
@@ -27,6 +28,7 @@ type hdGenOpts struct {
 	perms          bool
 	gatedAlways    bool
 	virtual        bool
+	v2             bool // protocol 2.0 hellos (good tokens and mutated ones)
 }
 
 type hdGen struct {
@@ -42,6 +44,7 @@ type hdGen struct {
 	blocked   map[int]bool
 	tag       int
 	dropped   []int // connections whose session may still be resumable
+	nb        int   // configured backends
 }
 
 func (g *hdGen) pickConn() int {
@@ -69,6 +72,19 @@ func (g *hdGen) pickFreeConn() (int, bool) {
 func (g *hdGen) idref(priv bool) *hdIdRef {
 	x := g.r.intn(100)
 	c := g.pickConn()
+	if !priv && (g.opts.internal || g.opts.virtual) && g.r.chance(18) {
+		// the public id of a virtual session (number 1..3) of some internal client, whichever backend it is on
+		var ic []int
+		for k, v := range g.intern {
+			if v {
+				ic = append(ic, k)
+			}
+		}
+		if len(ic) > 0 {
+			sort.Ints(ic)
+			return &hdIdRef{T: "vpub", C: pick(g.r, ic), V: 1 + g.r.intn(3)}
+		}
+	}
 	if priv && len(g.dropped) > 0 && g.r.chance(60) {
 		c = pick(g.r, g.dropped)
 	}
@@ -129,6 +145,9 @@ func (g *hdGen) message(c int) hdOp {
 	if g.r.chance(15) {
 		o.FS = g.pickConn()
 	}
+	if k == "msg" && g.opts.resume && g.r.chance(22) {
+		o.Tag = hdChatRefreshTag
+	}
 	return o
 }
 
@@ -183,6 +202,15 @@ func (g *hdGen) apiOp(bk int) hdOp {
 		used := map[int]bool{}
 		for i := 0; i < n; i++ {
 			u := hdApiUser{RS: 1 + r.intn(8), InCall: pick(r, []int{0, 1, 3, 7})}
+			if r.chance(18) {
+				// a signaling session id where a Nextcloud session id belongs (resolves to nobody)
+				u = hdApiUser{Id: g.idref(false), InCall: u.InCall}
+				if r.chance(50) {
+					u.HasP, u.Perm = true, []int{r.intn(len(hdPermNames))}
+				}
+				l = append(l, u)
+				continue
+			}
 			if used[u.RS] {
 				// the server handles the entries of one request concurrently: two entries for one session race
 				continue
@@ -331,6 +359,27 @@ func (g *hdGen) hello(c int) hdOp {
 		if r.chance(6) {
 			bk = 2 + r.intn(2)
 		}
+		if g.opts.v2 && r.chance(70) {
+			nb := g.nb
+			bk = r.intn(nb)
+			if r.chance(6) {
+				bk = nb + r.intn(2)
+			}
+			tb := bk
+			if tb >= nb {
+				tb = r.intn(nb)
+			}
+			tok := hdV2Good(r, tb)
+			good := bk < nb
+			if r.chance(55) {
+				tok = hdV2Mutate(r, tb, nb, tok)
+				good = false
+			}
+			if good {
+				g.auth[c] = bk
+			}
+			return hdOp{K: "hello", C: c, B: bk, U: r.intn(4), V2: tok}
+		}
 		rej := r.chance(8)
 		if bk < 2 && !rej {
 			g.auth[c] = bk
@@ -381,6 +430,14 @@ func (g *hdGen) op() hdOp {
 			default:
 				return hdOp{K: "tick", O: 1}
 			}
+		}
+		if (g.opts.limits || g.opts.endings || g.opts.resume) && r.chance(14) {
+			// the connection goes away while its hello is being processed
+			g.removeConn(c)
+			if len(g.dropped) > 0 && r.chance(50) {
+				return hdOp{K: "helloabort", C: c, Ht: "resume", Id: &hdIdRef{T: "priv", C: pick(r, g.dropped)}}
+			}
+			return hdOp{K: "helloabort", C: c, B: r.intn(2), U: r.intn(4), Late: r.chance(60)}
 		}
 		if r.chance(80) {
 			return g.hello(c)
@@ -474,6 +531,12 @@ func (g *hdGen) op() hdOp {
 func hdGenCase(r *vrng, id int, opts hdGenOpts, n int) *hdCase {
 	g := &hdGen{r: r, opts: opts, blocked: map[int]bool{}, auth: map[int]int{}, intern: map[int]bool{}, rsOf: map[int]int{}, rsBackend: map[int]int{}}
 	c := &hdCase{Id: id, Mode: 1, Backends: []hdBackendCfg{{}, {}}}
+	g.nb = 2
+	if opts.v2 && r.chance(40) {
+		// four tenants: backends 0 and 3 publish keys of the same family
+		c.Backends = append(c.Backends, hdBackendCfg{}, hdBackendCfg{})
+		g.nb = 4
+	}
 	if (opts.media && r.chance(40)) || opts.gatedAlways {
 		c.Gated = true
 		g.gated = true
